@@ -21,7 +21,7 @@ import (
 func init() { register("C11", checkC11) }
 
 func checkC11(c *core.Ctx) {
-	c.Explainf("C11 (decided clause: the discipline of the pending 'next record' attributes; faithfulness of a parser as a whole is behaviour and is NOT decided). R1: for the definition loop of ReadFile and the member loops of readEnum/readStruct/readMessage/readUnion, the loop-carried locals that hold a pending attribute (comment lines, opcode, readonly, flags; per-member comment, tags, deprecation) form a typestate {clear, maybe-set}; on every CFG path (go/cfg, with refinement on `if v`/`if v != 0` guards, iterated to a fixpoint over the loop) an iteration that completed a definition reaches the loop head with every pending attribute clear — an attribute annotates one definition and no other. R1b: an iteration that matched a token but completed no definition does not clear a pending opcode/readonly/flags/deprecation (the attribute would be lost before its definition). R2: every definition kind either consumes or rejects each of opcode and flags (kind x attribute matrix). R3: evaluateBitflagExpr instantiates the evaluator with the integer type of exactly the signedness and width it dispatches on, and covers the image of decodeIntegerType. NOT decided: token-to-field mapping, source order, layout independence.")
+	c.Explainf("C11 (decided clause: the discipline of the pending 'next record' attributes; faithfulness of a parser as a whole is behaviour and is NOT decided). R1: for the definition loop of ReadFile and the member loops of readEnum/readStruct/readMessage/readUnion, the loop-carried locals that hold a pending attribute (comment lines, opcode, readonly, flags; per-member comment, tags, deprecation) form a typestate {clear, maybe-set}; on every CFG path (go/cfg, with refinement on `if v`/`if v != 0` guards, iterated to a fixpoint over the loop) an iteration that completed a definition reaches the loop head with every pending attribute clear — an attribute annotates one definition and no other. R1b: an iteration that matched a token but completed no definition does not clear a pending opcode/readonly/flags/deprecation (the attribute would be lost before its definition). R2: every definition kind either consumes or rejects each of opcode and flags (kind x attribute matrix). R3: evaluateBitflagExpr instantiates the evaluator with the integer type of exactly the signedness and width it dispatches on, and covers the image of decodeIntegerType. R4: skipFollowingWhitespace skips every byte the token tree treats as insignificant. R5: whether a member is deprecated is recorded by a pure flag set in the clause that called readDeprecated, never derived from the message text (`[deprecated(\"\")]` is well formed). R6: the tokenizer uses no bufio primitive bounded by the buffer size (ReadSlice, ReadLine, Peek, Scanner): comments and literals have no length limit (positive control: fixtures/limitedread). NOT decided: token-to-field mapping, source order, layout independence beyond R4.")
 	p := loadRepo(c)
 	if p == nil {
 		return
@@ -402,7 +402,7 @@ func pendingTypestate(c *core.Ctx, p *load.Prog, fd *ast.FuncDecl, fname string)
 		msg, bad := leak[vi]
 		c.Check("R1", fmt.Sprintf("%s: pending %s is cleared once a definition consumed it", fname, v.Name()), p.Pos(v.Pos()), !bad,
 			msg+": it would annotate every later definition too (variables tracked: "+strings.Join(names, ", ")+")")
-		if isCommentVar(v.Name()) {
+		if isCommentVar(v) {
 			continue
 		}
 		msg, bad = lost[vi]
@@ -411,7 +411,13 @@ func pendingTypestate(c *core.Ctx, p *load.Prog, fd *ast.FuncDecl, fname string)
 	return true
 }
 
-func isCommentVar(n string) bool { return strings.Contains(strings.ToLower(n), "comment") }
+// isCommentVar: pending doc-comment lines and comment tags are the slice-typed
+// pending variables ([]string, []Tag); every other pending attribute is a
+// scalar (opcode, flags, readonly, deprecation).
+func isCommentVar(v types.Object) bool {
+	_, isSlice := v.Type().Underlying().(*types.Slice)
+	return isSlice
+}
 
 // attributeMatrix: R2
 func attributeMatrix(c *core.Ctx, p *load.Prog) {
@@ -421,14 +427,28 @@ func attributeMatrix(c *core.Ctx, p *load.Prog) {
 		return
 	}
 	info := pkg.TypesInfo
+	// the pending attributes by role: the variable that receives readOpCode's
+	// result, and the boolean handed to readEnum (the [flags] marker)
 	attrs := map[string]bool{}
 	ast.Inspect(fd.Body, func(n ast.Node) bool {
-		if as, ok := n.(*ast.AssignStmt); ok && as.Tok == token.DEFINE {
-			for _, l := range as.Lhs {
-				if id, ok := l.(*ast.Ident); ok {
-					ln := strings.ToLower(id.Name)
-					if strings.HasPrefix(ln, "nextrecord") && (strings.Contains(ln, "opcode") || strings.Contains(ln, "flag")) {
+		switch x := n.(type) {
+		case *ast.AssignStmt:
+			if len(x.Rhs) == 1 {
+				if call, ok := x.Rhs[0].(*ast.CallExpr); ok && wire.Canon(call.Fun) == "readOpCode" && len(x.Lhs) >= 1 {
+					if id, ok := x.Lhs[0].(*ast.Ident); ok && id.Name != "_" {
 						attrs[id.Name] = true
+					}
+				}
+			}
+		case *ast.CallExpr:
+			if wire.Canon(x.Fun) == "readEnum" {
+				for _, a := range x.Args {
+					if id, ok := ast.Unparen(a).(*ast.Ident); ok {
+						if o := info.ObjectOf(id); o != nil {
+							if b, isB := o.Type().Underlying().(*types.Basic); isB && b.Kind() == types.Bool {
+								attrs[id.Name] = true
+							}
+						}
 					}
 				}
 			}
@@ -448,7 +468,7 @@ func attributeMatrix(c *core.Ctx, p *load.Prog) {
 		appends := false
 		for _, s := range cc.Body {
 			if as, ok := s.(*ast.AssignStmt); ok && len(as.Rhs) == 1 {
-				if call, ok := as.Rhs[0].(*ast.CallExpr); ok && wire.Canon(call.Fun) == "append" && strings.HasPrefix(wire.Canon(as.Lhs[0]), "f.") {
+				if call, ok := as.Rhs[0].(*ast.CallExpr); ok && wire.Canon(call.Fun) == "append" && fileField(info, as.Lhs[0]) != "" {
 					if sl, ok := info.TypeOf(as.Lhs[0]).Underlying().(*types.Slice); ok {
 						if _, isStruct := sl.Elem().Underlying().(*types.Struct); isStruct {
 							appends = true
@@ -464,7 +484,7 @@ func attributeMatrix(c *core.Ctx, p *load.Prog) {
 		for a := range attrs {
 			consumed, rejected := false, false
 			for _, s := range cc.Body {
-				if ifs, ok := s.(*ast.IfStmt); ok && strings.Contains(wire.Canon(ifs.Cond), a) && endsInReturn(ifs.Body) {
+				if ifs, ok := s.(*ast.IfStmt); ok && mentionsIdent(ifs.Cond, a) && endsInReturn(ifs.Body) {
 					rejected = true
 					continue
 				}
@@ -497,12 +517,31 @@ func flagDispatch(c *core.Ctx, p *load.Prog, rule string) {
 	}
 	covered := map[string]bool{}
 	n := 0
+	boolParam, intParam := "", ""
+	for _, f := range fd.Type.Params.List {
+		for _, nm := range f.Names {
+			if o := pkg.TypesInfo.ObjectOf(nm); o != nil {
+				if b, isB := o.Type().Underlying().(*types.Basic); isB {
+					if b.Kind() == types.Bool && boolParam == "" {
+						boolParam = nm.Name
+					}
+					if b.Kind() == types.Int && intParam == "" {
+						intParam = nm.Name
+					}
+				}
+			}
+		}
+	}
 	var visit func(stmts []ast.Stmt, unsigned bool, known bool)
 	visit = func(stmts []ast.Stmt, unsigned bool, known bool) {
 		for _, s := range stmts {
 			switch x := s.(type) {
 			case *ast.IfStmt:
 				cx := wire.Canon(x.Cond)
+				// the signedness flag is the function's bool parameter, whatever its name
+				if boolParam != "" {
+					cx = strings.ReplaceAll(cx, boolParam, "uinttype")
+				}
 				if cx == "uinttype" {
 					visit(x.Body.List, true, true)
 					if eb, ok := x.Else.(*ast.BlockStmt); ok {
@@ -515,7 +554,7 @@ func flagDispatch(c *core.Ctx, p *load.Prog, rule string) {
 					}
 				}
 			case *ast.SwitchStmt:
-				if wire.Canon(x.Tag) != "bitsize" || !known {
+				if wire.Canon(x.Tag) != intParam || !known {
 					continue
 				}
 				for _, cc := range x.Body.List {
